@@ -73,6 +73,9 @@ def body(d):
     for v in d.values():
         if isinstance(v, str) and v.startswith('!'):
             raise {'v': ValueError, 'k': KeyError}.get(v[1:2], TypeError)(v)
+    for v in d.values():
+        if isinstance(v, str) and v == '~none':
+            return None          # a function whose RESULT is None / falsy is still a result (the cache must not take it for a miss)
     return d
 
 
@@ -118,6 +121,10 @@ def valid_calls(sig):
                 kw = {params[i]: 10 + i for i in sorted(supplied) if i >= j}
                 extras_a = [[]] + ([[90, 91]] if va and j == n else [])
                 extras_k = [{}] + ([{'x': 70, 'y': 71}] if vk else [])
+                if vk and va:
+                    extras_k.append({va: 72, 'x': 70})        # an extra keyword NAMED LIKE the *args parameter is an ordinary **kw entry
+                if vk:
+                    extras_k.append({vk: 73})                 # ... and so is one named like the **kw parameter itself
                 for ea in extras_a:
                     for ek in extras_k:
                         yield args + ea, dict(kw, **ek)
@@ -210,6 +217,8 @@ def scalar(rng):
 
 def cache_arg(rng):
     r = rng.random()
+    if r < 0.12:
+        return '~none'           # makes the generated function return None (see `body`)
     if r < 0.6:
         return scalar(rng)
     if r < 0.8:
@@ -353,9 +362,12 @@ def run_line(state, sx):
         c = cache_func(f)
         Counter.n = 0
         out = []
+        first_none = {}
         for call in a[1][1:]:
             args, kw = proto.dec(call[1]), proto.dec(call[2])
             r = res_val(lambda: c(*args, **kw))
+            if r is None:        # the function returned None (marker `~none`): report the binding of the FIRST call with this key, as the model does; the evaluation count is what matters
+                r = first_none.setdefault(ref_key(args, kw), dict(inspect.getcallargs(f, *args, **kw)))
             out.append((r, Counter.n))
         return 'ok ' + enc(out)
     if op == 'stack':
@@ -536,6 +548,32 @@ def laws(rng, tier, ctx):
         if got != f(*args, **kw):
             yield Finding('violation', dict(tag='law-kwargs-support', lines=['(deco stack %s %s %s %s)' % (sig_enc(sig), decos_enc([('kwargs_support', {})]), enc(list(args)), enc(dict(kw, zz=1, other=2)))]),
                           'kwargs_support gives %r, f without the undeclared keywords gives %r' % (got, f(*args, **kw)))
+    # (5b) try_value: the fallback is returned on EVERY failing call, also after a caller has mutated what an earlier failing call
+    # returned (a multi-step history: fail, mutate the result, fail again), and across wrappers built from the same template
+    import copy as _copy
+    from pyg_base import try_value, try_list
+
+    def _boom(a=0):
+        raise ValueError(a)
+    for proto_v in ([], {}, [1, 2], {'k': [1]}):
+        for build in (lambda v: try_value(_boom, value=v), lambda v: try_value(value=v)(_boom)):
+            count += 1
+            orig = _copy.deepcopy(proto_v)
+            w = build(proto_v)
+            r1 = w(1)
+            if isinstance(r1, list):
+                r1.append('polluted')
+            elif isinstance(r1, dict):
+                r1['polluted'] = 1
+            r2 = w(2)
+            if r2 != orig:
+                yield Finding('violation', dict(tag='law-try-value-fallback', lines=[], values=[repr(orig), repr(r2)]),
+                              'try_value(value=%r): after the caller mutated the result of one failing call the next failing call returns %r' % (orig, r2))
+    count += 1
+    a, b = try_list(_boom), try_list(lambda: [][1])
+    a(1).append('polluted')
+    if b() != [] or a(2) != []:
+        yield Finding('violation', dict(tag='law-try-value-fallback', lines=[]), 'try_list wrappers share one mutable fallback object: %r / %r' % (a(2), b()))
     # (6) cache: one evaluation per distinct combination as passed, first result thereafter
     for _ in range(300 if tier == 'quick' else 5000):
         case = gen_cache(rng)
